@@ -2383,6 +2383,9 @@ namespace igris
 
         static_vector &operator=(const static_vector &other)
         {
+            if (this == &other)
+                return *this;
+            clear();
             m_size = other.m_size;
             for (igris::size_t pos = 0; pos < m_size; ++pos)
             {
@@ -2393,12 +2396,15 @@ namespace igris
 
         static_vector &operator=(static_vector &&other)
         {
+            if (this == &other)
+                return *this;
+            clear();
             m_size = other.m_size;
             for (igris::size_t pos = 0; pos < m_size; ++pos)
             {
                 new (&_data[pos]) T(igris::move(other[pos]));
             }
-            other.m_size = 0;
+            other.clear();
             return *this;
         }
 
@@ -2512,6 +2518,11 @@ namespace igris
             if (newsize >= N)
                 newsize = N;
 
+            for (size_t i = newsize; i < m_size; ++i)
+            {
+                reinterpret_cast<T *>(&_data[i])->~T();
+            }
+
             for (size_t i = m_size; i < newsize; ++i)
             {
                 new (&_data[i]) T{};
@@ -2522,6 +2533,10 @@ namespace igris
 
         void clear()
         {
+            for (igris::size_t pos = 0; pos < m_size; ++pos)
+            {
+                reinterpret_cast<T *>(&_data[pos])->~T();
+            }
             m_size = 0;
         }
     };
